@@ -9,17 +9,31 @@ import multiprocessing as mp
 import z3
 
 
+def _starved(wall, cpu, budget_s):
+    """The solver budgets are wall-clock.  On an oversubscribed machine a query gets a fraction of a core, so a
+    timeout is not the budget it was meant to be: if the solver ran out of wall time having received clearly less
+    CPU time than that, the budget is re-issued scaled by wall/cpu (at most 16x, at most three times)."""
+    return wall >= 0.8 * budget_s and cpu < 0.7 * wall
+
+
 def _solve_one(job):
     name, smt2, timeout_ms, want_model = job
     t0 = time.time()
-    ctx = z3.Context()
-    s = z3.Solver(ctx=ctx)
-    s.set("timeout", timeout_ms)
-    try:
-        s.from_string(smt2)
-        r = s.check()
-    except z3.Z3Exception as e:
-        return name, "error", None, time.time() - t0, f"z3: {e}"
+    budget = timeout_ms
+    for attempt in range(3):
+        ctx = z3.Context()
+        s = z3.Solver(ctx=ctx)
+        s.set("timeout", int(budget))
+        w0, c0 = time.time(), time.process_time()
+        try:
+            s.from_string(smt2)
+            r = s.check()
+        except z3.Z3Exception as e:
+            return name, "error", None, time.time() - t0, f"z3: {e}"
+        wall, cpu = time.time() - w0, time.process_time() - c0
+        if r != z3.unknown or not _starved(wall, cpu, budget / 1000.0):
+            break
+        budget = min(timeout_ms * 16, timeout_ms * 1.3 * wall / max(cpu, 0.05))
     res = str(r)
     model = None
     if r == z3.sat and want_model:
@@ -35,12 +49,24 @@ def _cvc5_one(job):
     with tempfile.NamedTemporaryFile("w", suffix=".smt2", delete=False, dir="/dev/shm" if os.path.isdir("/dev/shm") else None) as f:
         f.write("(set-logic ALL)\n" + smt2 + "\n")
         path = f.name
+    import resource
+    budget = timeout_ms
     try:
-        p = subprocess.run(["/usr/bin/cvc5", f"--tlimit={timeout_ms}", "--nl-ext-tplanes", path],
-                           capture_output=True, text=True, timeout=timeout_ms / 1000 + 5)
-        out = p.stdout.strip().split("\n")[0] if p.stdout.strip() else "unknown"
-    except Exception as e:
-        out = "unknown"
+        for attempt in range(3):
+            w0 = time.time()
+            ru0 = resource.getrusage(resource.RUSAGE_CHILDREN)
+            try:
+                p = subprocess.run(["/usr/bin/cvc5", f"--tlimit={int(budget)}", "--nl-ext-tplanes", path],
+                                   capture_output=True, text=True, timeout=budget / 1000 + 5)
+                out = p.stdout.strip().split("\n")[0] if p.stdout.strip() else "unknown"
+            except Exception as e:
+                out = "unknown"
+            ru1 = resource.getrusage(resource.RUSAGE_CHILDREN)
+            wall = time.time() - w0
+            cpu = (ru1.ru_utime + ru1.ru_stime) - (ru0.ru_utime + ru0.ru_stime)
+            if out in ("sat", "unsat") or not _starved(wall, cpu, budget / 1000.0):
+                break
+            budget = min(timeout_ms * 16, timeout_ms * 1.3 * wall / max(cpu, 0.05))
     finally:
         os.unlink(path)
     if out not in ("sat", "unsat"):
